@@ -332,11 +332,78 @@ def _not_read_only_edge(F, body, du, block):
     return False
 
 
+def _mentions_fn(body, fn):
+    """`fn` is used as a value (fn item passed / stored), not called, somewhere in body."""
+    def op(o):
+        return isinstance(o, dict) and o.get('fn') == fn
+    for b, j, s in body.stmts():
+        rv = s.get('rv') or {}
+        if any(op(rv.get(k)) for k in ('o', 'a', 'b')) or any(op(o) for o in rv.get('ops') or []):
+            return True
+    for b, t in body.calls():
+        if any(op(a) for a in t['a']) or op(t['f'].get('indirect')):
+            return True
+    return False
+
+
+def _absorbed_helpers(F, reviewed_roots):
+    """Private helpers that are part of a reviewed writer: non-public, synchronous inherent / free functions of the
+    module of the reviewed writers whose EVERY use in the workspace is a direct call from a reviewed writer
+    (`assign_impl` -> `fn overwrite(&mut self, ..)` holding the success path). Such a helper is not a writer of its
+    own: its body is analysed in place (F.inlined) at each call site, so the (function, operation) table and the
+    read-only guard are decided where the helper is called. A helper with any other caller, or used as a value,
+    or that cannot be inlined, is not absorbed (its writes are then reported as an unreviewed writer's)."""
+    mods = {r.rsplit('::', 1)[0].split('::<impl')[0].split('::VariableRefMut')[0] for r in reviewed_roots}
+    out = {}
+    for fn, sig in F.fns.items():
+        if fn in reviewed_roots or sig.get('vis') == 'pub' or sig.get('async') or fn not in F.bodies:
+            continue
+        if 'of_trait: true' in str(sig.get('container')):
+            continue
+        if not any(fn.startswith(m + '::') for m in mods):
+            continue
+        callers = F.callers_of(lambda names, t, fn=fn: fn in names)
+        if not callers or any(b.root not in reviewed_roots for b, blk, t in callers):
+            continue
+        if any(_mentions_fn(b, fn) for b in F.bodies.values()):
+            continue
+        out[fn] = {b.fn for b, blk, t in callers}
+    return out
+
+
+def _with_helpers(F, body, absorbed):
+    """body with the absorbed helpers it calls inlined; None if one of them could not be inlined."""
+    mine = {h for h, users in absorbed.items() if body.fn in users}
+    if not mine:
+        return body
+    nb = F.inlined(body, lambda callee: callee in mine)
+    if any(Q.callee_is(t, sorted(mine)) for b, t in nb.calls()):
+        return None
+    return nb
+
+
 @RS.rule('C16.R2', 'K-GUARD+K-WRITERS+K-TYPE', 'read-only variables: value written only on the not-read-only edge, read-only mark never cleared, unset scans what it drains, no &mut Variable handed out')
 def r2(cx):
     F = cx.F
     counts = dict.fromkeys(VAR_FIELD_TABLE, 0)
+    reviewed = {fn for allowed in VAR_FIELD_TABLE.values() for fn, _ in allowed}
+    absorbed = _absorbed_helpers(F, reviewed)
+    bodies = []
     for body in F.bodies.values():
+        if body.root in reviewed:
+            nb = _with_helpers(F, body, absorbed)
+            if nb is None:          # not inlinable: the helpers stay writers of their own (reported below)
+                for h in [h for h, users in absorbed.items() if body.fn in users]:
+                    del absorbed[h]
+                nb = body
+            bodies.append(nb)
+        else:
+            bodies.append(body)
+    for h, users in sorted(absorbed.items()):
+        cx.site('%s: private helper called only by %s: analysed in place at its call sites' % (h, sorted(users)))
+    for body in bodies:
+        if body.fn in absorbed:
+            continue
         du = None
         for field, allowed in VAR_FIELD_TABLE.items():
             for kind, desc, node, blk in _mut_uses(body, VAR, field, through_ref_only=True):
@@ -1092,7 +1159,8 @@ RS.explanation += ' In SetVariables::execute (typeset / local / export / readonl
          'field is looked at and cleared, so `LINENO=55; echo $LINENO` prints 55')
 def r11(cx):
     F = cx.F
-    body = F.body(ASSIGN_IMPL)
+    # private helpers of the module called by assign_impl (e.g. the success path extracted into `fn overwrite`) are seen in place
+    body = F.inlined(F.body(ASSIGN_IMPL))
     cx.fn(body.fn)
     stores = [(blk, t) for blk, t in body.calls() if pp.callee(t) == 'core::option::Option::<T>::replace']
     cx.require(stores, 'assign_impl no longer stores the value with Option::replace (anchor moved)')
